@@ -23,7 +23,7 @@ impl Prop for C12 {
         "C12"
     }
     fn rule(&self) -> String {
-        "cases = C03-style conversations x arrival schedule: strict lock-step (the embedded reference client releases message i+1 only after the reply to message i has been decoded from *flushed* bytes), fully pipelined, or chunkings that end reads after k complete commands plus a partial one; short transport writes; 1 in 5 conversations has one reply of 254-1026 packets (around the multiples of 256); 1 in 6 pads a query so that a message or a burst is exactly 4096*2^k bytes on the wire (a read that exactly fills the receive buffer). Oracle, at every read() call: with M = client messages wholly contained in the bytes delivered so far, the bytes covered by the last flush() decode to the greeting plus a complete reply to every reply-expecting message in M; in lock-step mode the server must never call read() while the client is still owed a reply ('would block forever') and every command must be served. Non-trivial = some read delivered >= 2 whole commands, or lock-step with >= 3 exchanges.".into()
+        "cases = C03-style conversations x arrival schedule: strict lock-step (the embedded reference client releases message i+1 only after the reply to message i has been decoded from *flushed* bytes), fully pipelined, or chunkings that end reads after k complete commands plus a partial one; short transport writes; 1 in 5 conversations has one reply of 254-1026 packets (around the multiples of 256); 1 in 6 pads a query so that a message or a burst is exactly 4096*2^k bytes on the wire (a read that exactly fills the receive buffer). Enumerated also: 2-3 multi-packet (17-33 MB) queries pipelined and delivered by reads larger than a packet (one giant read, 17-50 MiB reads). Oracle, at every read() call: with M = client messages wholly contained in the bytes delivered so far, the bytes covered by the last flush() decode to the greeting plus a complete reply to every reply-expecting message in M; in lock-step mode the server must never call read() while the client is still owed a reply ('would block forever') and every command must be served. Non-trivial = some read delivered >= 2 whole commands, or lock-step with >= 3 exchanges.".into()
     }
     fn assumptions(&self) -> Vec<String> {
         vec!["invariant over a blocking in-memory transport, not a kernel socket; plaintext only (C18 applies the lock-step detection over TLS)".into()]
@@ -76,6 +76,28 @@ impl Prop for C12 {
                 }
             }
         }
+        if g.chance(1, 2500) {
+            // 2-3 pipelined commands of 1-3 packets each, delivered by reads of 17-40 MB (as much
+            // as the receive buffer takes), then the client waits
+            let n = g.usize_in(2, 3);
+            let mut cmds = Vec::new();
+            let mut actions = Vec::new();
+            for k in 0..n {
+                let len = match g.below(4) {
+                    0 => MAX_PAYLOAD + g.usize_in(0, 200),
+                    1 => MAX_PAYLOAD + g.usize_in(1 << 20, 8 << 20),
+                    2 => 2 * MAX_PAYLOAD + g.usize_in(0, 200) - 100,
+                    _ => 2 * MAX_PAYLOAD + g.usize_in(1 << 20, 12 << 20),
+                };
+                cmds.push(Cmd::Query { text: Blob::Text { seed: g.raw(), len } });
+                actions.push(Action::Result(Program::completed(k as u64, 0)));
+            }
+            cmds.push(Cmd::Ping);
+            let mut big = Conversation::new(cmds, actions);
+            big.sched = Schedule { sizes: (0..g.usize_in(1, 3)).map(|_| g.usize_in(17 << 20, 40 << 20)).collect(), hot: vec![], big: 0, write_accept: vec![] };
+            big.lockstep = false;
+            return Case { conv: big };
+        }
         let (len, ends, _) = client_stream_meta(&conv);
         conv.sched = gen_schedule(g, len, &ends);
         conv.lockstep = g.chance(2, 5);
@@ -99,6 +121,34 @@ impl Prop for C12 {
                 );
                 conv.lockstep = lockstep;
                 conv.sched = Schedule::fixed(1 << 21);
+                v.push(Case { conv });
+            }
+        }
+        // several multi-packet commands pipelined, delivered by reads that are themselves larger
+        // than a packet (one giant read; 17, 20, 34 MiB reads): a read may end anywhere inside a
+        // later command, with the earlier ones complete in the same buffer
+        let scheds: Vec<Schedule> = match tier {
+            Tier::Quick => vec![Schedule::all_at_once(), Schedule::fixed(20 << 20)],
+            Tier::Thorough => vec![Schedule::all_at_once(), Schedule::fixed((17 << 20) + 3), Schedule::fixed(20 << 20), Schedule::fixed(34 << 20), Schedule::fixed(50 << 20)],
+        };
+        for (i, sched) in scheds.into_iter().enumerate() {
+            for ncmd in [2usize, 3] {
+                if tier == Tier::Quick && ncmd == 3 && i == 1 {
+                    continue;
+                }
+                let mut cmds = Vec::new();
+                let mut actions = Vec::new();
+                for k in 0..ncmd {
+                    // (the first one long enough that the library's receive buffer, which doubles,
+                    // has room for a read of more than a packet while it is still incomplete)
+                    let len = if k == 0 { 2 * MAX_PAYLOAD + 5 } else { [2 * MAX_PAYLOAD + 5, MAX_PAYLOAD + (3 << 20), MAX_PAYLOAD + 77][(k + i) % 3] };
+                    cmds.push(Cmd::Query { text: Blob::Text { seed: (i * 10 + k) as u32 + 40, len } });
+                    actions.push(Action::Result(Program::completed(k as u64, 1)));
+                }
+                cmds.push(Cmd::Ping);
+                let mut conv = Conversation::new(cmds, actions);
+                conv.lockstep = false;
+                conv.sched = sched.clone();
                 v.push(Case { conv });
             }
         }
@@ -127,6 +177,12 @@ impl Prop for C12 {
         ex.class(if c.lockstep { "lock-step" } else { "pipelined" });
         if multi {
             ex.class("read-delivers>=2-commands");
+        }
+        if c.cmds.iter().filter(|sc| sc.cmd.payload_len_hint() >= MAX_PAYLOAD).count() >= 2 {
+            ex.class(">=2-multi-packet-commands-pipelined");
+            if o.ops.iter().any(|op| op.kind == OpKind::Read && op.n > MAX_PAYLOAD + 4) {
+                ex.class("read-larger-than-a-packet");
+            }
         }
         if let RunResult::Panic(p) = &o.result {
             ex.fail(format!("c12-panic|{}", panic_signature(p)), format!("run_on panicked: {}", o.result.brief()));
